@@ -1,9 +1,11 @@
 package pkic
 
 import (
+	"crypto/elliptic"
 	"crypto/x509"
 	"fmt"
 	"sort"
+	"sync"
 	"testing"
 	"time"
 
@@ -34,11 +36,12 @@ type trcModel struct {
 	cores, auths    []int
 	noTrustReset    bool
 	order           []string // certificate order: "<class>/<as>"
+	twins           []int    // regular voters of these ASes appear a second time as a look-alike certificate (same distinguished name, other ISD-AS attribute and key)
 }
 
 func (m *trcModel) clone() *trcModel {
 	c := &trcModel{sens: map[int]string{}, reg: map[int]string{}, root: map[int]string{}, quorum: m.quorum, noTrustReset: m.noTrustReset,
-		cores: append([]int{}, m.cores...), auths: append([]int{}, m.auths...), order: append([]string{}, m.order...)}
+		cores: append([]int{}, m.cores...), auths: append([]int{}, m.auths...), order: append([]string{}, m.order...), twins: append([]int{}, m.twins...)}
 	for k, v := range m.sens {
 		c.sens[k] = v
 	}
@@ -75,7 +78,33 @@ func (m *trcModel) certs(p *poolT) []*x509.Certificate {
 			out = append(out, p.get(typ, as, v).X)
 		}
 	}
+	for _, a := range m.twins {
+		out = append(out, regularTwin(p, a).X)
+	}
 	return out
+}
+
+var (
+	twinMu sync.Mutex
+	twinOf = map[int]*pki.Cert{}
+)
+
+// regularTwin: a regular voting certificate with the distinguished name of AS a's regular voter
+// but the ISD-AS attribute of another AS and its own key.
+func regularTwin(p *poolT, a int) *pki.Cert {
+	twinMu.Lock()
+	defer twinMu.Unlock()
+	if c, ok := twinOf[a]; ok {
+		return c
+	}
+	orig := p.get(cppki.Regular, a, "A")
+	other := addr.MustIAFrom(isdID, p.ases[(a+1)%6])
+	c, err := pki.NewCert(cppki.Regular, pki.Subject(other, orig.X.Subject.CommonName), pki.Key(elliptic.P256(), 3950+a), p.nb, p.na, nil)
+	if err != nil {
+		panic(err)
+	}
+	twinOf[a] = c
+	return c
 }
 
 func asOf(o string) int {
@@ -111,7 +140,7 @@ func TestC32(t *testing.T) {
 		"Oracle: transcription of the statement (admissibility of acceptance). Non-trivial: successor rejected for a single reason other than the header, or an accepted update with a replaced voter or root.")
 	defer rec.Flush(t)
 	rec.Assume("payload validity is decided by TRC.Validate here (checked against a reference in C33)", "CMS library and ECDSA are trusted")
-	rec.Require("certificates_reordered", "accepted_regular", "accepted_sensitive", "accepted_base", "rejected", "replaced_regular_voter", "replaced_root", "new_voter", "too_few_votes", "duplicate_vote", "wrong_class_vote", "mixed_votes", "vote_out_of_range",
+	rec.Require("twin_swap", "certificates_reordered", "accepted_regular", "accepted_sensitive", "accepted_base", "rejected", "replaced_regular_voter", "replaced_root", "new_voter", "too_few_votes", "duplicate_vote", "wrong_class_vote", "mixed_votes", "vote_out_of_range",
 		"missing_vote_signature", "missing_new_voter_signature", "missing_root_ack", "wrong_key_signature", "header_base", "header_serial", "header_trust_reset", "regular_votes_for_sensitive_change", "base_missing_signature", "base_with_predecessor")
 	p := pool()
 	rapid.Check(t, func(rt *rapid.T) {
@@ -239,9 +268,10 @@ func TestC32(t *testing.T) {
 		}
 		var ops []string
 		sensitiveChange := false
+		twinSwap := false
 		nOps := rapid.IntRange(0, 3).Draw(rt, "nOps")
 		for i := 0; i < nOps; i++ {
-			op := rapid.SampledFrom([]string{"replace_regular", "replace_regular", "replace_root", "replace_root", "replace_all_roots", "replace_sensitive", "add_sensitive", "remove_sensitive", "add_regular", "remove_regular", "add_root", "remove_root", "quorum", "cores", "auths"}).Draw(rt, "op")
+			op := rapid.SampledFrom([]string{"replace_regular", "replace_regular", "replace_root", "replace_root", "replace_all_roots", "replace_sensitive", "add_sensitive", "remove_sensitive", "add_regular", "remove_regular", "add_root", "remove_root", "quorum", "cores", "auths", "cores_drop_last", "auths_drop_last", "swap_regular_via_twin"}).Draw(rt, "op")
 			switch op {
 			case "replace_regular", "replace_root", "replace_sensitive":
 				typ := map[string]cppki.CertType{"replace_regular": cppki.Regular, "replace_root": cppki.Root, "replace_sensitive": cppki.Sensitive}[op]
@@ -295,6 +325,32 @@ func TestC32(t *testing.T) {
 				sm.cores = append(sm.cores, free(map[int]string{sm.cores[0]: ""})[0])
 				ops = append(ops, "cores")
 				sensitiveChange = true
+			case "cores_drop_last":
+				if len(sm.cores) > 1 && len(sm.cores) > len(sm.auths) {
+					sm.cores = sm.cores[:len(sm.cores)-1]
+					ops = append(ops, "cores_drop_last")
+					sensitiveChange = true
+				}
+			case "auths_drop_last":
+				if len(sm.auths) > 1 {
+					sm.auths = sm.auths[:len(sm.auths)-1]
+					ops = append(ops, "auths_drop_last")
+					sensitiveChange = true
+				}
+			case "swap_regular_via_twin":
+				// one regular voter disappears, another one appears twice (original and look-alike): the
+				// number of regular voters is unchanged
+				ks := keysSorted(sm.reg)
+				if len(ks) >= 3 && len(sm.twins) == 0 {
+					b := ks[rapid.IntRange(0, len(ks)-1).Draw(rt, "removedVoter")]
+					c := ks[(rapid.IntRange(1, len(ks)-1).Draw(rt, "doubledVoter")+indexOf(ks, b))%len(ks)]
+					if _, inPred := pm.reg[b]; inPred && b != c {
+						delete(sm.reg, b)
+						sm.twins = append(sm.twins, c)
+						ops = append(ops, fmt.Sprintf("swap_regular_via_twin(-%d,+twin of %d)", b, c))
+						twinSwap = true
+					}
+				}
 			case "auths":
 				if len(sm.auths) < len(sm.cores) {
 					sm.auths = sm.cores[:len(sm.auths)+1]
@@ -346,6 +402,9 @@ func TestC32(t *testing.T) {
 					}
 				}
 			}
+		}
+		for _, a := range sm.twins {
+			newVoters = append(newVoters, regularTwin(p, a))
 		}
 		for _, a := range keysSorted(sm.root) {
 			if v, ok := pm.root[a]; ok && v != sm.root[a] {
@@ -456,6 +515,14 @@ func TestC32(t *testing.T) {
 		succ := mk(sm, sISD, sBase, sSerial, votes, time.Duration(rapid.IntRange(0, 7200).Draw(rt, "grace"))*time.Second)
 		st, err := pki.SignTRC(succ, signers)
 		if err != nil {
+			if twinSwap {
+				// the payload validation refuses two voters with the same distinguished name: the
+				// update cannot even be encoded, which is the expected rejection
+				labels["twin_swap"] = true
+				labels["rejected"] = true
+				rec.Case(true, fmt.Sprintf("ops=%v rejected at encoding: %v", ops, err), keysOf(labels)...)
+				return
+			}
 			rt.Skip("successor payload cannot be encoded: " + err.Error())
 		}
 		verr := st.Verify(&pred)
@@ -466,6 +533,10 @@ func TestC32(t *testing.T) {
 			if reason == "" {
 				reason = r
 			}
+		}
+		if twinSwap {
+			fail("two regular voting certificates with the same distinguished name (and a regular voter removed)")
+			labels["twin_swap"] = true
 		}
 		if sISD != pred.ID.ISD {
 			fail("ISD differs")
@@ -555,6 +626,15 @@ func TestC32(t *testing.T) {
 		rec.Case((verr != nil && header == "") || (verr == nil && (labels["replaced_regular_voter"] || labels["replaced_root"])), desc, keysOf(labels)...)
 		rec.Sample(func() any { return map[string]any{"case": desc, "accepted": verr == nil} })
 	})
+}
+
+func indexOf(ks []int, v int) int {
+	for i, k := range ks {
+		if k == v {
+			return i
+		}
+	}
+	return 0
 }
 
 func uint64v(i int) scrypto.Version { return scrypto.Version(i) }
